@@ -273,9 +273,11 @@ def c02(tier, rng):
             b = B('C02', 'early successful return of a %s handler after %d of %d, beside a live echo stream' % (kind, nread, nsent), ser=bool(nsent % 2))
             b.step('sopen', c=1, kind='bidi', hp=[dict(o='echo')])
             b.step('send', c=1, pay='a0').step('recv', c=1)
-            b.step('sopen', c=2, kind=kind, hp=[dict(o='recv')] * nread + [ret()])
+            b.step('sopen', c=2, kind=kind, hp=[dict(o='recv')] * nread)
             for i in range(nsent):
                 b.step('send', c=2, pay='b%d' % i)
+            b.q()
+            b.step('hop', c=2, h=ret())          # ... and now it returns, with the rest unread
             b.q()
             b.step('send', c=1, pay='a1').step('recv', c=1)
             b.step('recv', c=2, n=2)
